@@ -221,6 +221,31 @@ def t_engine():
     ok(len({r for _, r in engine.explore(run2, 9)}) == 1 + 2 + 4, "DFS complete on dependent tree")
 
 
+def _spin(item, rep):
+    if item == 1:
+        while True:
+            pass
+    rep.case()
+
+
+def t_item_watchdog():
+    """a work item that never finishes is cut by the CPU-time watchdog and reported, the other items still run"""
+    import os
+    old = os.environ.get("VERIF_ITEM_CPU_S")
+    os.environ["VERIF_ITEM_CPU_S"] = "1"
+    try:
+        engine.CURRENT_PID[0] = "CXX"
+        rep = engine.Report()
+        engine.pmap(_spin, [0, 1, 2, 3, 4, 5], rep, workers=3)
+        ok(list(rep.violations) == ["CXX/library-hangs:_spin"] and rep.evaluations + len(rep.caps) >= 3, "watchdog: hang reported, pool survives")
+    finally:
+        engine.CURRENT_PID[0] = None
+        if old is None:
+            del os.environ["VERIF_ITEM_CPU_S"]
+        else:
+            os.environ["VERIF_ITEM_CPU_S"] = old
+
+
 def t_threaded_world():
     w = World(horizon_ns=50 * MS).activate()
     log = []
@@ -265,7 +290,7 @@ def t_threaded_world():
 
 def main():
     for t in (t_reset_and_masks, t_status_shift_and_irq, t_retransmit_and_max_rt, t_pid_dup,
-              t_ack_payload_and_fifo_full, t_noack_and_static, t_half_duplex_collision, t_engine,
+              t_ack_payload_and_fifo_full, t_noack_and_static, t_half_duplex_collision, t_engine, t_item_watchdog,
               t_threaded_world):
         try:
             t()
